@@ -22,6 +22,11 @@ type c20Tpl struct {
 	avs    []AVSpec
 	sw     [][2]Tok
 	extra  func(x *OracleCtx)
+	// badV, when set, replaces bad per variant; maybe marks inputs on which the
+	// property does not fix the outcome for that variant (a name equal to the
+	// label of a chunk whose label is not emitted under that setting)
+	badV  func(x *OracleCtx, variant string) interp.Value
+	maybe func(x *OracleCtx, variant string) interp.Value
 }
 
 func lines(ls ...string) string { return strings.Join(ls, "\n") }
@@ -178,6 +183,16 @@ func c20Templates() []*c20Tpl {
 		}
 	})
 	// ---- labels vs generated labels (concrete script name, symbolic label)
+	anyOf := func(l *Atom, names ...string) interp.Value {
+		var ts []string
+		for _, n := range names {
+			ts = append(ts, interp.BoolTerm(interp.StrEq(l.Val, n)))
+		}
+		if len(ts) == 0 {
+			return false
+		}
+		return interp.SymBool{T: interp.Or(ts...)}
+	}
 	add("label-equals-own-chunk-label", func(t *c20Tpl) {
 		l := t.atoms.New(ClsIdent, "lbl", "")
 		f := t.atoms.New(ClsIdent, "flag", "")
@@ -185,15 +200,59 @@ func c20Templates() []*c20Tpl {
 		t.src = func() string {
 			return lines("script MyScript {", "  if (flag("+ph(f)+")) {", "    "+ph(c), "  }", "  "+ph(c), "  "+ph(l)+":", "  "+ph(c), "}")
 		}
-		t.bad = func(x *OracleCtx) interp.Value {
-			var ts []string
-			for _, n := range []string{"MyScript", "MyScript_1", "MyScript_2", "MyScript_3"} {
-				ts = append(ts, interp.BoolTerm(interp.StrEq(l.Val, n)))
+		// MyScript_3 is the condition chunk: its label is emitted without
+		// -optimize only
+		t.badV = func(x *OracleCtx, v string) interp.Value {
+			if v == "opt" {
+				return anyOf(l, "MyScript", "MyScript_1", "MyScript_2")
 			}
-			return interp.SymBool{T: interp.Or(ts...)}
+			return anyOf(l, "MyScript", "MyScript_1", "MyScript_2", "MyScript_3")
+		}
+		t.maybe = func(x *OracleCtx, v string) interp.Value {
+			if v == "opt" {
+				return anyOf(l, "MyScript_3")
+			}
+			return false
 		}
 		t.line = 6
 	})
+	// the same clash with the label at every position of a script with an if
+	// and a loop: before the chunk it clashes with is rendered, inside a
+	// branch, inside the loop, at the end. Emitted labels: with -optimize
+	// MyScript, _1, _2, _5, _6; without, _1 ... _7.
+	for _, pos := range []struct {
+		name string
+		line int
+	}{{"top", 2}, {"in-if-body", 5}, {"in-loop-body", 9}, {"at-end", 12}} {
+		pos := pos
+		add("label-equals-chunk-label-"+pos.name, func(t *c20Tpl) {
+			l := t.atoms.New(ClsIdent, "lbl", "")
+			f := t.atoms.New(ClsIdent, "flag", "")
+			g := t.atoms.New(ClsIdent, "flag", "")
+			c := t.atoms.New(ClsPlainCmd, "cmd", "")
+			t.src = func() string {
+				body := []string{"script MyScript {", "  if (flag(" + ph(f) + ")) {", "    " + ph(c), "  }", "  " + ph(c), "  while (flag(" + ph(g) + ")) {", "    " + ph(c), "  }", "  " + ph(c), "}"}
+				at := map[string]int{"top": 1, "in-if-body": 3, "in-loop-body": 6, "at-end": 8}[pos.name]
+				ls := append([]string{}, body[:at]...)
+				ls = append(ls, "  "+ph(l)+":")
+				ls = append(ls, body[at:]...)
+				return lines(ls...)
+			}
+			t.badV = func(x *OracleCtx, v string) interp.Value {
+				if v == "opt" {
+					return anyOf(l, "MyScript", "MyScript_1", "MyScript_2", "MyScript_5", "MyScript_6")
+				}
+				return anyOf(l, "MyScript", "MyScript_1", "MyScript_2", "MyScript_3", "MyScript_4", "MyScript_5", "MyScript_6", "MyScript_7")
+			}
+			t.maybe = func(x *OracleCtx, v string) interp.Value {
+				if v == "opt" {
+					return anyOf(l, "MyScript_3", "MyScript_4", "MyScript_7")
+				}
+				return false
+			}
+			t.line = map[string]int{"top": 2, "in-if-body": 4, "in-loop-body": 7, "at-end": 9}[pos.name]
+		})
+	}
 	add("label-equals-text-label", func(t *c20Tpl) {
 		l := t.atoms.New(ClsIdent, "lbl", "")
 		tn := t.atoms.New(ClsUserName, "text", "")
@@ -256,11 +315,24 @@ func c20Case(t *c20Tpl) *Case {
 		}
 	}
 	cs.Oracle = func(x *OracleCtx) *Violation {
-		bad := x.C.DecideValue(t.bad(x))
+		bad0 := false
+		if t.badV == nil {
+			bad0 = x.C.DecideValue(t.bad(x))
+		}
 		for _, v := range x.Case.Variants {
 			res := x.Res[v.Name]
 			if res.Err.Panic != "" {
 				return &Violation{Sub: "panic", Msg: res.Err.Panic}
+			}
+			bad := bad0
+			if t.badV != nil {
+				bad = x.C.DecideValue(t.badV(x, v.Name))
+			}
+			if !bad && t.maybe != nil && x.C.DecideValue(t.maybe(x, v.Name)) {
+				if !res.Err.IsErr {
+					continue // the clashing label is not emitted under this setting
+				}
+				bad = true // rejected: the error must still be located
 			}
 			if !bad {
 				if res.Err.IsErr {
